@@ -264,6 +264,22 @@ def build():
          requires=GWR,
          ensures=[E('stale', '!live(old(self_).entities, entity) ==> r is None && final(self_).data@ == old(self_).data@', 'C03'),
                   E('present', 'old(self_).data@.dom().contains(entity.0) && live(old(self_).entities, entity) ==> r is Some && *r.unwrap() == old(self_).data@[entity.0] && final(self_).data@ == old(self_).data@.insert(entity.0, *final(r.unwrap()))', 'C04')])
+    # GenericReadStorage::get for the four handle shapes: one-line delegations to Storage::get (N12: free functions)
+    u.struct('src/storage/data.rs', ['type ReadStorage'])
+    GR_ENS = lambda S_: [E('stale', '!live(%s.entities, entity) ==> r is None' % S_, 'C03'),
+                         E('map', 'r == (if %s.data@.dom().contains(entity.0) && live(%s.entities, entity) { Some(&%s.data@[entity.0]) } else { None })' % (S_, S_, S_), 'C04')]
+    for (hdr, ty, nm) in [("impl<'a, T> GenericReadStorage for ReadStorage<'a, T>", "&'x ReadStorage<'a, T>", 'read'),
+                          ("impl<'a: 'b, 'b, T> GenericReadStorage for &'b ReadStorage<'a, T>", "&'x &'b ReadStorage<'a, T>", 'read_ref')]:
+        u.fn(GN, [hdr, 'fn get'], ret='r', props='C03 C04', free='generic_%s_get' % nm, key='GenericReadStorage(%s)::get' % nm,
+             rules=[('N12', r'fn get\(&self,', "fn get<'a: 'b, 'b, 'x, T: Component>(self_: %s," % ty), ('N8', r'Option<&Self::Component>', "Option<&'x T>")] + SELF_,
+             requires=[E('data_wf', 'self_.data.wf()'), E('ents', 'ent_ok(self_.entities)')], ensures=GR_ENS('self_'))
+    for (hdr, ty, nm) in [("impl<'a, T> GenericReadStorage for WriteStorage<'a, T>", "&'x WriteStorage<'a, T>", 'write'),
+                          ("impl<'a: 'b, 'b, T> GenericReadStorage for &'b WriteStorage<'a, T>", "&'x &'b WriteStorage<'a, T>", 'write_ref')]:
+        u.fn(GN, [hdr, 'fn get'], ret='r', props='C03 C04', free='generic_%s_get' % nm, key='GenericReadStorage(%s)::get' % nm,
+             rules=[('N12', r'fn get\(&self,', "fn get<'a: 'b, 'b, 'x, T: Component>(self_: %s," % ty), ('N8', r'Option<&Self::Component>', "Option<&'x T>")] + SELF_,
+             requires=[E('data_wf', 'old(self_.data).wf()'), E('ents', 'ent_ok(self_.entities)')], ensures=GR_ENS('old(self_)') if False else
+             [E('stale', '!live(self_.entities, entity) ==> r is None', 'C03'),
+              E('map', 'r == (if old(self_.data)@.dom().contains(entity.0) && live(self_.entities, entity) { Some(&old(self_.data)@[entity.0]) } else { None })', 'C04')])
     # ---- is_empty / negation / restricted views
     for (hdr, tag) in [(HR, '&'), (HW, '&mut')]:
         D = 'self.data' if tag == '&' else 'old(self.data)'
